@@ -42,6 +42,12 @@ def _send_ev(n):
 
 
 def check(cx):
+    _env_wrapped = True
+    from . import c03
+    return _check_own(cx) + c03.envelopes(cx, ID)
+
+
+def _check_own(cx):
     return r1_r5(cx) + r2(cx) + r3(cx) + r4(cx) + r6(cx) + r7(cx) + r8(cx) + r9(cx)
 
 
